@@ -3,6 +3,10 @@ Observation equality (DESIGN section 5). Works on values *as delivered over the 
 encoding). Independent of objtypes.py on purpose.
 """
 import math
+import re
+
+
+_ADDR = re.compile(r" at 0x[0-9a-fA-F]+")
 
 
 def norm(v):
@@ -37,6 +41,9 @@ def _norm(v):
   if t is list or t is tuple:
     if v and v[0] == "E" and isinstance(v[0], str):
       return ("E", v[1] if len(v) > 1 else None)
+    if len(v) == 2 and v[0] == "U" and isinstance(v[1], str):
+      # the repr of an object that cannot travel; a default repr carries a memory address
+      return ("U", _ADDR.sub(" at 0x?", v[1]))
     return ("L",) + tuple(_norm(x) for x in v)
   if t is dict:
     return ("D",) + tuple(sorted(((_norm(k), _norm(x)) for k, x in v.items()), key=repr))
